@@ -884,6 +884,22 @@ public:
 	   \return reference to FieldTraits object */
 	const FieldTraits& get_fp() const { return _fp; }
 
+	/*! Convert the digits of a decoded tag to a field number.
+	    \param tag digits of the tag
+	    \param end if given, stop there (otherwise at the first non digit)
+	    \return the field number, 0 (never a field) if empty, more than 5 digits or above 65535 */
+	static unsigned short tag_to_fnum(const char *tag, const char *end=nullptr)
+	{
+		unsigned result(0);
+		for (unsigned ii(0); (!end || tag + ii < end) && isdigit(tag[ii]); ++ii)
+		{
+			if (ii == 5)
+				return 0;
+			result = result * 10 + (tag[ii] - '0');
+		}
+		return result > 0xffff ? 0 : static_cast<unsigned short>(result);
+	}
+
 	/*! Extract a tag/value element from a char buffer. ULL version.
 	    \param from source buffer
 	    \param sz size of string
